@@ -519,8 +519,12 @@ func terminationOf(i *value.VmInterrupt) bool {
     ensures @fresh-core result != nil && len(result.Stack) == 0 && result.Corenum == old(self.coreCnt)
 @*/
 
+// (ghost(goroutines) counts the `go` statements executed: every core that is
+// registered in vm.Cores is also started, otherwise Wait would wait for a core
+// that never signals)
 /*@ func (self *VM) spawnCoreInternal
-    serves C16
+    serves C16, C10
+    ensures @registered-core-is-started ghost(goroutines) == old(ghost(goroutines)) + 1
     assume-safety
     norac
     requires rlocks(&self.Cores.Lock) == 0 && !wlocked(&self.Cores.Lock)
@@ -531,7 +535,8 @@ func terminationOf(i *value.VmInterrupt) bool {
 @*/
 
 /*@ func (self *VM) SpawnSync
-    serves C16
+    serves C16, C10
+    ensures @core-started ghost(goroutines) == old(ghost(goroutines)) + 1
     assume-safety
     assumepre DeepCast, Wait, HandleTermination
     requires rlocks(&self.Cores.Lock) == 0 && !wlocked(&self.Cores.Lock)
@@ -543,7 +548,8 @@ func terminationOf(i *value.VmInterrupt) bool {
 @*/
 
 /*@ func (self *VM) SpawnAsync
-    serves C16
+    serves C16, C10
+    ensures @core-started ghost(goroutines) == old(ghost(goroutines)) + 1
     assume-safety
     assumepre DeepCast
     requires rlocks(&self.Cores.Lock) == 0 && !wlocked(&self.Cores.Lock)
